@@ -371,3 +371,79 @@ Proof.
   intros Hok Hcl Hv HP. apply builder_accepted; try assumption.
   eapply inv_reach. apply inv_chain; eassumption.
 Qed.
+
+(* ---- chains built by honest builders only -------------------------------- *)
+Fixpoint build_chain (t : table) (h : hdr) (n : nat) : list hdr :=
+  match n with
+  | O => [h]
+  | S n' => match process_vs t h with
+            | Some c => h :: build_chain t c n'
+            | None => [h]
+            end
+  end.
+
+Lemma process_num t h c : process_vs t h = Some c -> num c = num h + 1.
+Proof.
+  unfold process_vs. intros HP.
+  destruct (lookup t (cur h)) as [pp|]; [|discriminate].
+  break_in HP; try discriminate; injection HP as <-; reflexivity.
+Qed.
+
+Lemma process_nv_known t h c :
+  process_vs t h = Some c ->
+  (nv h <> 0 -> lookup t (nv h) <> None) ->
+  nv c <> 0 -> lookup t (nv c) <> None.
+Proof.
+  unfold process_vs. intros HP Hk.
+  destruct (lookup t (cur h)) as [pp|]; [|discriminate].
+  break_in HP; try discriminate; injection HP as <-; fields; bool_hyps;
+    intros Hn; try (exfalso; apply Hn; reflexivity); try congruence;
+    try (apply Hk; assumption); try (apply Hk; lia);
+    try (exfalso; apply (Hk Hn); reflexivity);
+    try (exfalso; assert (Hnz : nv h <> 0) by lia; apply (Hk Hnz); reflexivity).
+Qed.
+
+Lemma valid_chain_snoc t l h c :
+  valid_chain t (l ++ [h]) = true -> num c = num h + 1 -> verify_vs t h c = Ok ->
+  valid_chain t (l ++ [h; c]) = true.
+Proof.
+  induction l as [|x r IH]; intros Hv Hn Hok.
+  - simpl. rewrite Hn, N.eqb_refl, Hok. reflexivity.
+  - destruct r as [|y r'].
+    + simpl in Hv |- *. apply andb_prop in Hv as [H1 _]. rewrite H1. simpl.
+      rewrite Hn, N.eqb_refl, Hok. reflexivity.
+    + change ((x :: y :: r') ++ [h]) with (x :: (y :: r') ++ [h]) in Hv.
+      change ((x :: y :: r') ++ [h; c]) with (x :: (y :: r') ++ [h; c]).
+      cbn [valid_chain app] in Hv |- *. apply andb_prop in Hv as [H1 H2].
+      rewrite H1. cbn [andb]. apply IH; assumption.
+Qed.
+
+Lemma builder_chain_gen t n : table_ok t = true -> forall l h,
+  Clean (hd h l) -> valid_chain t (l ++ [h]) = true ->
+  (nv h <> 0 -> lookup t (nv h) <> None) ->
+  valid_chain t (l ++ build_chain t h n) = true.
+Proof.
+  intros Hok. induction n as [|n IH]; intros l h Hcl Hv Hk; cbn [build_chain]; [exact Hv|].
+  destruct (process_vs t h) as [c|] eqn:HP; [|exact Hv].
+  pose proof (process_num _ _ _ HP) as Hn.
+  assert (Hver : verify_vs t h c = Ok).
+  { destruct (builder_accepted_chain t l h c Hok Hcl Hv HP) as [H|(Hs & Hnone & _)]; [exact H|].
+    exfalso. destruct (N.eq_dec (nv h) 0) as [Hz|Hnz].
+    - (* no proposal: nso h = num c is impossible for a reachable parent *)
+      pose proof (inv_reach _ _ _ (inv_chain t l h Hok Hv Hcl)) as [(_ & _ & Hso & _)|(Hnz' & _)]; [lia|contradiction].
+    - exact (Hk Hnz Hnone). }
+  replace (l ++ h :: build_chain t c n) with ((l ++ [h]) ++ build_chain t c n)
+    by (rewrite <- app_assoc; reflexivity).
+  apply IH.
+  - destruct l; exact Hcl.
+  - rewrite <- app_assoc. apply valid_chain_snoc; assumption.
+  - apply (process_nv_known t h c HP Hk).
+Qed.
+
+(* every chain produced by honest builders from a proposal-free header verifies link by link *)
+Lemma builder_chain_valid t h n :
+  table_ok t = true -> Clean h -> valid_chain t (build_chain t h n) = true.
+Proof.
+  intros Hok Hcl. apply (builder_chain_gen t n Hok [] h); [exact Hcl|reflexivity|].
+  destruct Hcl as (Hz & _). intros; contradiction.
+Qed.
